@@ -22,7 +22,8 @@ func init() {
 		Rule: "snapshot-registry monitor with argument scribbling: seeded random histories (C08's state machine supplies what each step may change) over TensorOf at every nesting depth / Full / Slice / Patch / Concat / Reshape / Broadcast / UnSqueeze / Flatten / Transpose / reductions / element-wise and implicitly broadcasting operations / Dot / MatMul / comparisons, BackPropagate and ResetGradContext. " +
 			"After EVERY call: (1) every slice that was passed in (dims, shape, nested data at every level, []Range, []Tensor, At index) and every slice handed out (Shape()) is overwritten with garbage - a random mix of invalid values and valid-but-different ones; (2) the registry re-reads EVERY tensor created so far: Shape(), every element's bits, gradient identity, the gradient's own elements, hooked tracked/spent flags - only the set the state machine allows may differ (BackPropagate: gradients/spent flags of the reachable tracked set; ResetGradContext: its receiver). " +
 			"At the end the same history is re-executed WITHOUT scribbling and every tensor and every final gradient must be bit-identical. A component scenario (NewFC with initializers that scribble the shape they were given, Weights() slice scribbled, variadic Forward inputs scribbled, loss, BackPropagate, SGD.Update through pointers) is monitored the same way. " +
-			"Non-trivial: the history passes >= 1 slice argument and back-propagates after scribbling; distinct = multiset of (operation kinds with slice arguments) x number of back-propagations x length class. Later additions: MatMul / Dot / keepdims / Pow(0) / Var/StdAlong and ranks up to 6 in the generator; after every call the argument slices are compared with what was passed (the library must not write into them) before they are scribbled; rejected calls and adopted gradient tensors as actions.",
+			"Non-trivial: the history passes >= 1 slice argument and back-propagates after scribbling; distinct = multiset of (operation kinds with slice arguments) x number of back-propagations x length class. Later additions: MatMul / Dot / keepdims / Pow(0) / Var/StdAlong and ranks up to 6 in the generator; after every call the argument slices are compared with what was passed (the library must not write into them) before they are scribbled; rejected calls and adopted gradient tensors as actions." +
+			" Round 4: Sigmoid / Relu objects and the MSE component as operations over existing tensors; action 'reset one operand of an earlier mixed-shape operation and apply it again'.",
 		Assumptions: []string{"what a step may legitimately change is taken from the C08 state machine (only BackPropagate assigns gradients and spends, only ResetGradContext changes tracking)"},
 		FloorQuick:  3000, FloorThor: 50000,
 		Run: runC10,
@@ -372,6 +373,11 @@ func c10GenOp(h *c08hist) (ref.Instr, bool) {
 		if y, ok := compat(func(s []int) bool { return ref.SameShape(s, v.Shape) }); ok {
 			return ref.Instr{Op: []string{"gt", "eq"}[r.Intn(2)], In: []int{x, y}}, true
 		}
+	case 11: // component calls over existing tensors: a loss (rank 1), an activation object
+		if y, ok := compat(func(s []int) bool { return ref.SameShape(s, v.Shape) }); ok && rank == 1 {
+			return ref.Instr{Op: "mse", In: []int{x, y}}, true
+		}
+		return ref.Instr{Op: []string{"sigmoid", "relu"}[r.Intn(2)], In: []int{x}}, true
 	}
 	return ref.Instr{Op: []string{"sin", "tanh", "cos"}[r.Intn(3)], In: []int{x}}, true
 }
@@ -464,6 +470,8 @@ func c10Run(k *fw.K, actions []c08action, scribble bool) (h *c08hist, ex *c10exe
 			if h.resetAllowed(t) {
 				ok = h.doReset(t, k.Rng.Intn(2) == 0)
 			}
+		case len(h.nodes) >= 3 && q == 3 && k.Rng.Intn(3) == 0:
+			ok = h.doResetAndRepeat()
 		default:
 			if in, good := c10GenOp(h); good {
 				ok = h.doOp(in)
